@@ -328,8 +328,8 @@ def reject_before_record(cx: Ctx, rule: str):
         dnews = [e for e in p.events if e.kind == "call" and e.sched and cx.slot_role(e.cb) == "callback_new"]
         sts = [e for e in p.events if e.kind == "store" and cx._is_store_mutation(e)]
         pops = [e for e in p.events if e.kind == "call" and e.attrname == "pop" and cx._is_store_mutation(e)]
-        is_new = bool(pops) and pops[0].raised is not None
-        if not pops:
+        is_new = (bool(pops) and pops[0].raised is not None) or (not pops and any(e.kind == "caught" and e.value == "KeyError" for e in p.events))
+        if not pops and not is_new:
             raise AnalysisError(f"{refresh.qual}: cannot tell new entries from refreshed ones (no pop of the old value)")
         if is_new and p.outcome[0] != "raise":
             seen += 1
